@@ -110,3 +110,18 @@ Proof.
   transitivity (Angle___add__ Rops (ang e0) (ang de));
   [ reflexivity | apply Angle_add_ang; exact Hs ].
 Qed.
+
+(* unconditional form: no assumption on what nutation_obliquity returns (an error, OutOfFuel
+   included, propagates through bind; a non-Angle value is refused by Angle.__add__ itself) *)
+Lemma true_obliquity_structure j : Rabs (uj j) <= 0.2 ->
+  f_true_obliquity Rops (VTuple [epo j]) (VDict []) =
+  bind (f_nutation_obliquity Rops (VTuple [epo j]) (VDict []))
+       (fun de => Angle___add__ Rops (ang (eps0 + laskar (uj j) / 3600)) de).
+Proof.
+  intros Hu. pyrun. bind_step ltac:(apply mean_obliquity_poly; exact Hu). next_bind.
+  change (py_tuple (VTuple [epo j])) with (VTuple [epo j] : val R).
+  generalize (f_nutation_obliquity Rops (VTuple [epo j]) (VDict [])). intros v.
+  destruct v; try (rewrite !bind_ok by reflexivity; reflexivity).
+  rewrite !bind_err. reflexivity.
+Qed.
+
